@@ -345,7 +345,9 @@ func c05(w *core.World, r *core.Report) {
 	ruleReaderLeft(w, r)
 	r.Rule("R08.1", "snapshot commit point (shared with C08): a snapshot becomes offerable only when every announced byte was written", 3)
 	ruleRdbCommit(w, r)
-	r.Rule("R05.10", "snapshot and log stay joined under collection", 2)
+	r.Rule("R05.11", "one writer per log: the running writer is closed before its successor's file is created", 1)
+	ruleWriterReplacement(w, r)
+	r.Rule("R05.10", "snapshot and log stay joined under collection", 3)
 	ruleJointUnderGc(w, r)
 }
 
@@ -723,6 +725,63 @@ func ruleJointUnderGc(w *core.World, r *core.Report) {
 		} else {
 			r.Check(bad == "" && n > 0, "dataSet.gcLogs/pinned-snapshot-keeps-log", f.Pos(), "%s (paths with a pinned snapshot=%d)", bad, n)
 		}
+		// the same for a snapshot that is kept because the size test spared it: on every
+		// arithmetically possible path that removes a log segment the snapshot is gone
+		// (it was absent, or the path dropped it from the index)
+		bad2, removing := "", 0
+		var pos2 token.Pos = f.Pos()
+		okEnum = core.EnumPathsN(f.Blocks[0], 0, 400000, core.Unroll, func(p *core.Path) {
+			if bad2 != "" {
+				return
+			}
+			removes := false
+			for _, in := range p.Instrs {
+				for _, rm := range aofRemoves {
+					if in == rm {
+						removes = true
+					}
+				}
+			}
+			if !removes {
+				return
+			}
+			removing++
+			// the snapshot: absent from the start, or un-indexed on the path
+			for _, in := range p.Instrs {
+				if st, ok := in.(*ssa.Store); ok {
+					if fa, isFa := st.Addr.(*ssa.FieldAddr); isFa && core.FieldName(fa) == "rdb" && strings.HasSuffix(core.TypeName(fa.X.Type()), "dataSet") {
+						if c, isC := st.Val.(*ssa.Const); isC && c.Value == nil {
+							return
+						}
+					}
+				}
+			}
+			for _, fct := range p.Conds {
+				c, ok := core.AsCmp(fct.Cond, fct.Val)
+				if !ok {
+					continue
+				}
+				x := p.Resolve(c.X)
+				if strings.HasSuffix(core.TypeName(x.Type()), "dataSetRdb") {
+					if kc, isC := c.Y.(*ssa.Const); isC && kc.Value == nil && c.Op == token.EQL {
+						return // no snapshot
+					}
+				}
+			}
+			bad2 = "the collector removes log segments on a pass that keeps the snapshot indexed: the size test spared the snapshot although the log that continues it is being deleted, so the offset right after the snapshot stays 'valid' while its bytes are gone"
+			for _, in := range p.Instrs {
+				for _, rm := range aofRemoves {
+					if in == rm {
+						pos2 = in.Pos()
+					}
+				}
+			}
+		})
+		if !okEnum {
+			r.Undecided("dataSet.gcLogs/log-removal-implies-snapshot-removal", f.Pos(), "too many paths")
+		} else {
+			r.Check(bad2 == "" && removing > 0, "dataSet.gcLogs/log-removal-implies-snapshot-removal", pos2, "%s (paths removing a log segment=%d)", bad2, removing)
+		}
 	}
 	// memory: see R05.7 (offering predicate requires the log to start at the snapshot offset)
 	if f := fn(w, r, "(*syncer.MemoryChannel).rdbReplayableLocked"); f != nil {
@@ -745,6 +804,8 @@ func c08(w *core.World, r *core.Report) {
 	ruleVerifyOnOpen(w, r)
 	r.Rule("R08.5", "segment header finalised at close: header fields ≺ Seek(0) ≺ Write(header) ≺ Sync/Close", 1)
 	ruleCloseAof(w, r)
+	r.Rule("R08.8", "the 'still being written' marker that exempts a segment from verification is given only together with a writer", 1)
+	ruleWriterMarker(w, r)
 	r.Rule("R08.7", "opening a reader with verification cannot block on the storer's own mutex", 1)
 	ruleNoSelfDeadlock(w, r, "no-self-deadlock")
 }
@@ -1441,5 +1502,125 @@ func ruleReaderLeft(w *core.World, r *core.Report) {
 	}
 	if n < 2 {
 		r.Fail("Storer.GetReader/reader-left", f.Pos(), "expected the reader's reported position to be set for the log and the snapshot reader (found %d)", n)
+	}
+}
+
+
+// ---------------------------------------------------------------- R05.11 writer replacement
+
+// ruleWriterReplacement: segment files are named after their left offset, and
+// closing a writer that has not received a byte removes its (header-only) file.
+// A successor that starts at the same offset must therefore be created after
+// the running writer was closed; the other order lets the close remove the file
+// the new writer is appending to, while the range keeps growing.
+func ruleWriterReplacement(w *core.World, r *core.Report) {
+	n := 0
+	for _, f := range w.Funcs() {
+		if f.Pkg == nil || !strings.HasSuffix(f.Pkg.Pkg.Path(), "pkg/store") || f.Parent() != nil {
+			continue
+		}
+		for _, s := range core.SitesNamed(f, false, "pkg/store.NewAofWriter") {
+			if s.Instr.Parent() != f {
+				continue // seen through an expanded helper: judged where it is written
+			}
+			n++
+			closed := false
+			for _, c := range core.SitesNamed(f, false, "(*pkg/store.dataSet).CloseAofWriter") {
+				if core.Dominates(c.Instr, s.Instr) {
+					closed = true
+				}
+			}
+			if !closed {
+				// a helper that does nothing else than create the writer: judged at its call sites
+				if calls := callSitesOf(w, f); len(calls) > 0 && f.Name() != "GetAofWritter" {
+					all := true
+					for _, cs := range calls {
+						ok := false
+						for _, c := range core.SitesNamed(cs.Parent(), false, "(*pkg/store.dataSet).CloseAofWriter") {
+							if core.Dominates(c.Instr, cs) {
+								ok = true
+							}
+						}
+						all = all && ok
+					}
+					closed = all
+				}
+			}
+			r.Check(closed, shortName(core.FuncName(f))+"/close-before-create", s.Pos(), "a new log writer is created while the running one may still be open: both can name the same segment file (same left offset), and closing the old, still empty one afterwards removes the file the new writer appends to; the offsets stay 'valid' but cannot be read")
+		}
+	}
+	if n == 0 {
+		r.Fail("close-before-create", token.NoPos, "no creation of a log writer found")
+	}
+}
+
+// callSitesOf lists the static call instructions of f in the program.
+func callSitesOf(w *core.World, f *ssa.Function) []ssa.Instruction {
+	var out []ssa.Instruction
+	for _, g := range w.Funcs() {
+		for _, s := range core.Sites(g, false) {
+			if s.Callee == f && s.Instr.Parent() == g {
+				out = append(out, s.Instr)
+			}
+		}
+	}
+	return out
+}
+
+
+// ---------------------------------------------------------------- R08.8 the unverified-segment marker
+
+// ruleWriterMarker: a log segment whose recorded size is negative counts as
+// "still being written" and is served without size and checksum verification
+// (hasWriter). The marker may therefore be set only where the segment is
+// really handed a writer; set anywhere else (for instance on the newest
+// segment found by the directory scan) it switches verification off for a
+// closed segment.
+func ruleWriterMarker(w *core.World, r *core.Report) {
+	negConst := func(v ssa.Value) bool {
+		c, ok := core.Unwrap(v).(*ssa.Const)
+		if !ok || c.Value == nil || c.Value.Kind() != constant.Int {
+			return false
+		}
+		n, exact := constant.Int64Val(c.Value)
+		return exact && n < 0
+	}
+	n := 0
+	for _, f := range w.Funcs() {
+		if f.Pkg == nil || !strings.HasSuffix(f.Pkg.Pkg.Path(), "pkg/store") {
+			continue
+		}
+		for _, in := range core.OwnInstrs(f) {
+			var seg ssa.Value
+			switch x := in.(type) {
+			case *ssa.Store:
+				fa, ok := x.Addr.(*ssa.FieldAddr)
+				if ok && core.FieldName(fa) == "size" && strings.HasSuffix(core.TypeName(fa.X.Type()), "dataSetAof") && negConst(x.Val) {
+					seg = fa.X
+				}
+			case *ssa.Call:
+				if core.ResolveCall(x).Name == "(*pkg/store.dataSetAof).SetSize" && len(x.Call.Args) == 2 && negConst(x.Call.Args[1]) {
+					seg = x.Call.Args[0]
+				}
+			}
+			if seg == nil {
+				continue
+			}
+			n++
+			hasWriter := false
+			for _, in2 := range core.OwnInstrs(f) {
+				if c, ok := in2.(*ssa.Call); ok && core.ResolveCall(c).Name == "(*pkg/store.dataSetAof).SetWriter" && len(c.Call.Args) >= 1 && c.Call.Args[0] == seg {
+					hasWriter = true
+				}
+			}
+			name := shortName(core.FuncName(f))
+			if f.Parent() != nil {
+				name = shortName(core.FuncName(f.Parent())) + "$closure"
+			}
+			r.Check(hasWriter, name+"/marker-with-writer", in.Pos(), "a segment is marked 'still being written' (negative size) without being handed a writer: such a segment is exempt from size and checksum verification for as long as the process lives, so a closed segment with altered content is served")
+		}
+	}
+	if n == 0 {
+		r.Fail("marker-with-writer", token.NoPos, "no place marks a segment as being written")
 	}
 }
